@@ -438,6 +438,7 @@ func run(newCfg *Config, start bool) (Context, error) {
 	if err != nil {
 		globalMetrics.configSuccess.Set(0)
 		ctx.cfg.cancelFunc() // clean up the provisioned modules
+		restoreDefaultStorage()
 		return ctx, err
 	}
 
@@ -467,6 +468,7 @@ func run(newCfg *Config, start bool) (Context, error) {
 		// the config won't be used (the apps that had started
 		// were stopped above), so clean up its provisioned modules
 		ctx.cfg.cancelFunc()
+		restoreDefaultStorage()
 		return ctx, err
 	}
 	globalMetrics.configSuccess.Set(1)
@@ -483,6 +485,7 @@ func run(newCfg *Config, start bool) (Context, error) {
 		// the config won't be used, so stop its apps
 		// and clean up its provisioned modules
 		unsyncedStop(ctx)
+		restoreDefaultStorage()
 		return ctx, err
 	}
 	return ctx, nil
@@ -525,9 +528,7 @@ func provisionContext(newCfg *Config, replaceAdminServer bool) (Context, error) 
 			cancel()
 
 			// also undo any other state changes we made
-			if currentCtx.cfg != nil {
-				certmagic.Default.Storage = currentCtx.cfg.storage
-			}
+			restoreDefaultStorage()
 		}
 	}()
 	newCfg.cancelFunc = cancel // clean up later
@@ -758,8 +759,27 @@ func Validate(cfg *Config) error {
 	_, err := run(cfg, false)
 	if err == nil {
 		cfg.cancelFunc() // call Cleanup on all modules
+
+		// provisioning made cfg's storage CertMagic's
+		// default storage; cfg is not going to run
+		restoreDefaultStorage()
 	}
 	return err
+}
+
+// restoreDefaultStorage makes the storage of the config that is
+// currently running CertMagic's default storage again (or Caddy's
+// default storage if no config is running), after a config that
+// had been provisioned, which sets it, turned out not to be used.
+func restoreDefaultStorage() {
+	currentCtxMu.RLock()
+	cfg := currentCtx.cfg
+	currentCtxMu.RUnlock()
+	if cfg != nil {
+		certmagic.Default.Storage = cfg.storage
+	} else {
+		certmagic.Default.Storage = DefaultStorage
+	}
 }
 
 // exitProcess exits the process as gracefully as possible,
